@@ -230,7 +230,7 @@ pub fn specs() -> Vec<CheckSpec> {
             stub: NO_STUB,
             assumptions: ASSUME_BOOK,
             explanation: "crash/restart with only durable (JSON) state surviving, torn-write enumeration per sampled file, twins driven in lock-step",
-            expected_probes: &["crash_restart", "twin_kept", "restart_with_partially_filled_order", "restart_with_unplaced_order", "restart_while_halted", "restart_into_other_level_count", "torn_write_offset", "drain_probe"],
+            expected_probes: &["crash_restart", "twin_kept", "restart_with_partially_filled_order", "restart_with_unplaced_order", "restart_while_halted", "restart_into_other_level_count", "torn_write_offset", "snapshot_over_longer_file", "drain_probe"],
         },
         CheckSpec {
             id: "C08",
